@@ -309,28 +309,42 @@ def run_case(case):
         v.close("translated/rotated: horizontal direction components move with the geometry, vertical ones unchanged",
                 max(float(np.max(np.abs(R @ p.emitted_direction - w.emitted_direction))), float(np.max(np.abs(R @ p.received_direction - w.received_direction)))), dir_tol(p), **det)
         v.close("translated/rotated: equal attenuation", float(np.max(np.abs(att(p) - att(w)))), 1e-6, **det)
-    # ---- mechanism observable (kf_layered_scan_edge_root): a multi-leg layered solution whose end leg lies in a gradient layer, has
-    # no depth extent and is launched / received *exactly* horizontally is the root the finder reports at the 90-degree end of its
-    # launch-angle scan.  Such solutions are reported under their own clause and set aside, the remaining ones are compared strictly.
-    def scan_edge_root(p):
+    # ---- mechanism observable (kf_layered_noise_arc_leg): a multi-leg layered solution whose end leg is an arc inside a gradient
+    # layer that starts and ends at the same depth (endpoint on an inner boundary).  For a launch at elevation phi << 1 from the
+    # horizontal the arc's horizontal extent is 2 n phi / |dn/dz| to first order (valid while its height n phi^2 / (2 |dn/dz|) is
+    # small against the profile's scale 1/a).  A reported extent off by more than a factor two from that is not an arc of the
+    # profile at all.  Such solutions are reported under their own clause and set aside, the remaining ones are compared strictly.
+    def noise_arc_leg(p):
         legs_ = list(getattr(p, "paths", []))
         if len(legs_) < 2:
-            return False
+            return None
         for sp, dvec in ((legs_[0], p.emitted_direction), (legs_[-1], p.received_direction)):
-            if (abs(float(np.asarray(dvec, float)[2])) <= 1e-12 and not hasattr(sp, "_points")
-                    and float(np.asarray(sp.from_point, float)[2]) == float(np.asarray(sp.to_point, float)[2])):
-                return True
-        return False
+            f_, t_ = np.asarray(sp.from_point, float), np.asarray(sp.to_point, float)
+            li = getattr(sp, "ice", None)
+            if hasattr(sp, "_points") or f_[2] != t_[2] or not all(hasattr(li, x_) for x_ in ("k", "a", "index")):
+                continue
+            phi = abs(float(np.asarray(dvec, float)[2]))
+            n_ = float(li.index(float(f_[2])))
+            dn_ = abs(float(li.k) * float(li.a) * float(np.exp(float(li.a) * float(f_[2]))))
+            if phi > 1e-3 or dn_ <= 0 or float(li.a) * n_ * phi * phi / (2 * dn_) > 0.1:
+                continue
+            true_extent = 2 * n_ * phi / dn_
+            reported = float(np.hypot(*(t_ - f_)[:2]))
+            if not (0.5 * true_extent <= reported <= 2 * true_extent):
+                return {"elevation_rad": phi, "reported_extent_m": reported, "first_order_extent_m": float(true_extent), "depth": float(f_[2]), "L": float(p.path_length)}
+        return None
 
     if str(fam).startswith("layered"):
-        e1 = [i for i, p in enumerate(s1) if scan_edge_root(p)]
-        e2 = [i for i, p in enumerate(s2) if scan_edge_root(p)]
+        e1 = {i: noise_arc_leg(p) for i, p in enumerate(s1)}
+        e2 = {i: noise_arc_leg(p) for i, p in enumerate(s2)}
+        e1 = {i: o for i, o in e1.items() if o}
+        e2 = {i: o for i, o in e2.items() if o}
         if e1 or e2:
-            v.check(False, "no layered solution is a root at the exactly horizontal end of the launch-angle scan",
-                    forward_lengths=[float(s1[i].path_length) for i in e1], swapped_lengths=[float(s2[i].path_length) for i in e2], exactly_horizontal_zero_extent_end_leg=True, **geo)
+            v.check(False, "the end leg of a layered solution is an arc of its layer's profile",
+                    forward=list(e1.values()), swapped=list(e2.values()), arc_extent_off_by_more_than_a_factor_two=True, **geo)
             s1 = [p for i, p in enumerate(s1) if i not in e1]
             s2 = [p for i, p in enumerate(s2) if i not in e2]
-            if not v.check(len(s1) == len(s2), "swapping / moving the endpoints keeps the number of solutions", n=[len(s1), len(s2)], scan_edge_roots_set_aside=[len(e1), len(e2)], **geo):
+            if not v.check(len(s1) == len(s2), "swapping / moving the endpoints keeps the number of solutions", n=[len(s1), len(s2)], noise_arc_solutions_set_aside=[len(e1), len(e2)], **geo):
                 return v.result(decided=True, nontrivial=False, sample=sample)
     # ---- reciprocity: match solutions by path length (the order of reflected families may differ under a swap)
     used = set()
@@ -433,11 +447,11 @@ def fx_uniform_reflection_points(case, viol):
     return viol["detail"].get("family") == "uniform" and viol["clause"].startswith("translated/rotated")
 
 
-def kf_layered_scan_edge_root(case, viol):
-    """Root reported at the exactly horizontal end of the launch-angle scan (endpoint on an inner boundary below a gradient layer
-    whose gradient has died out): measured as a zero-extent gradient end leg with a direction z-component of exactly 0."""
-    return (viol["clause"] == "no layered solution is a root at the exactly horizontal end of the launch-angle scan"
-            and viol["detail"].get("exactly_horizontal_zero_extent_end_leg") is True)
+def kf_layered_noise_arc_leg(case, viol):
+    """End leg of a layered solution at an endpoint on an inner boundary, launched 1e-7..1e-3 rad from the horizontal into a gradient
+    layer: its closed-form horizontal extent is off by more than a factor two from the arc 2 n phi / |dn/dz| (measured per solution)."""
+    return (viol["clause"] == "the end leg of a layered solution is an arc of its layer's profile"
+            and viol["detail"].get("arc_extent_off_by_more_than_a_factor_two") is True)
 
 
 def kf_layered_angle_scan(case, viol):
